@@ -3,6 +3,7 @@
 HOOK_COMMITS = [
     "81c554f verif hook: export the internal async processor under the verif build tag",
     "6be3b1e verif hook: export tunnel byte carriers (base64 stream reader, HTTP tunnel conn, WebSocket reader/writer) under the verif build tag",
+    "6f97682 verif hook: export the SRTP context and its MIKEY conversion (verif_export_srtp.go) under the verif build tag",
 ]
 
 NOT_APPLICABLE = {}
@@ -179,4 +180,12 @@ META["C19"] = dict(
     level_text=("Exploration: generated intruder sources x datagram kinds x roles, with silence phases for the timeout clause, and generated replayed "
                 "requests x victim states x origins."),
     level_note=("Trusted: loopback aliases as 'other addresses'; IPv4-mapped forms not reachable."),
+)
+
+META["C17"] = dict(
+    design_ref="DESIGN.md section 4, C17",
+    technique="property-based testing (rapid): generated key material / SSRC sets / roll-over counters through the MIKEY round trip with bit-flip tampering (unit level, via a verif hook), generated SETUP admission matrix with altered MIKEY policies, generated secure worlds observed by wire taps with in-transit tampering, generated redirect downgrades",
+    level_text=("Exploration: generated keys x MKI x SSRC sets x sequence/ROC starts with single-bit tampering at any position; generated admission "
+                "combinations; secure end-to-end worlds with clear-text markers searched on the wire."),
+    level_note=("Trusted: pion/srtp for the cipher itself (the checks are about keys, counters and policies reaching it correctly); taps see every datagram and frame."),
 )
